@@ -38,8 +38,9 @@ class Outcome:
 class Unit:
     registry = []
 
-    def __init__(self, prop, name, targets, body, note="", bounded=None):
+    def __init__(self, prop, name, targets, body, note="", bounded=None, tiers=("quick", "thorough"), z3_ms=None, cvc5_ms=None):
         self.prop, self.name, self.targets, self.body, self.note = prop, name, targets, body, note
+        self.tiers, self.z3_ms, self.cvc5_ms = tiers, z3_ms, cvc5_ms
         self.bounded = bounded      # None: unbounded proof unit; str: bounded symbolic unit (bound stated)
         self.rewrite_log = []
 
@@ -47,11 +48,11 @@ class Unit:
         return "Unit(%s/%s)" % (self.prop, self.name)
 
 
-def unit(prop, name, targets, note="", bounded=None):
+def unit(prop, name, targets, note="", bounded=None, tiers=("quick", "thorough"), z3_ms=None, cvc5_ms=None):
     """Decorator: register a unit.  targets = [(module_name, qualname), ...] functions of /repo
     whose real bodies this unit executes under contract."""
     def deco(f):
-        u = Unit(prop, name, targets, f, note, bounded)
+        u = Unit(prop, name, targets, f, note, bounded, tiers, z3_ms, cvc5_ms)
         Unit.registry.append(u)
         f.unit = u
         return f
@@ -83,7 +84,10 @@ class API:
             return real
         routed = self.__dict__.setdefault("_routed", {})
         if modname not in routed:
-            routed[modname] = rewrite.route_module(mod)
+            # the callees of the function under contract may live in any tornado module: route them all
+            for n2, m2 in list(sys.modules.items()):
+                if (n2 == modname or n2.startswith("tornado.")) and not n2.startswith("tornado.test") and n2 not in routed and m2 is not None:
+                    routed[n2] = rewrite.route_module(m2)
             real = rewrite.get_function(mod, qualname)
             real = getattr(real, "_pyvc_original__", real)
         old = self.ghost.setdefault("old", {})
